@@ -54,6 +54,11 @@ def stubbed(module, **names):
 _MISSING = object()
 
 
+def real_dtype(t):
+    """dtype contract of singular values / norms: real, of the precision of the argument"""
+    return {"float32": "float32", "complex64": "float32"}.get(str(t.dtype), "float64")
+
+
 def make_svd_stub(S, rec=None, exact=False, square_u=False):
     """svd_interface by contract (A3): U has orthonormal columns, S >= 0, V has orthonormal rows; with `exact` the
     hypothesis 'the truncated SVD is exact' (U diag(S) V = M) is registered (C09: requested rank >= rank of the unfolding).
@@ -66,7 +71,7 @@ def make_svd_stub(S, rec=None, exact=False, square_u=False):
         if S.name == "sym":
             k = n_eigenvecs
             U = G.opaque_tensor("SVDU", [G.axis_sizes(matrix)[0], k], matrix.dtype, ortho_axis=2 if square_u else 0)
-            Sv = G.opaque_tensor("SVDS", [k], "float64")
+            Sv = G.opaque_tensor("SVDS", [k], real_dtype(matrix))  # dtype contract: real, same precision
             V = G.opaque_tensor("SVDV", [k, G.axis_sizes(matrix)[1]], matrix.dtype, ortho_axis=1)
             G.NONNEG.add(G.name_of(Sv))
             if exact:
